@@ -1327,6 +1327,30 @@ def check_forest(im, clause, spec, a, b, c, x):
             return viol("forest", "convert-user-chain-round-trip",
                         "u%d -> u%d -> u%d of %s = %s, expected %s; %s" %
                         (a, b, a, x, r2[1][1] if r2[0] == "ok" else r2, x, desc), **base)
+    elif clause == "value":
+        # what the units' own callables define: up from a to its root (x*k + d per link), then down to b
+        def to_root(u, v):
+            while spec[u][0] is not None:
+                v = v * spec[u][1] + spec[u][2]
+                u = spec[u][0]
+            return u, v
+
+        def from_root(u, v):
+            chain = []
+            while spec[u][0] is not None:
+                chain.append(u)
+                u = spec[u][0]
+            for w in reversed(chain):
+                v = (v - spec[w][2]) / spec[w][1]
+            return u, v
+        ra, va = to_root(a, x)
+        rb, exp = from_root(b, va)
+        if ra == rb:
+            r = call_forest(im, spec, a, b, x)
+            if r[0] != "ok" or r[1][1] != exp:
+                return viol("forest", "convert-user-chain-value",
+                            "convert(u%d, u%d, %s) = %s, the units' own conversions give %s; %s" %
+                            (a, b, x, r[1][1] if r[0] == "ok" else r, exp, desc), **base)
     elif clause == "composition":
         r = call_forest(im, spec, a, b, x)
         r2 = call_forest(im, spec, b, c, r[1][1]) if r[0] == "ok" else r
@@ -1637,6 +1661,11 @@ def oracle_forests_raw(im, r, specs):
             v = check_forest(im, "composition", spec, a, b, c, r.choice(xs))
             if v:
                 return v
+        for a in range(m):
+            for b in range(m):
+                v = check_forest(im, "value", spec, a, b, None, xs[2])
+                if v:
+                    return v
     return None
 
 
